@@ -190,7 +190,7 @@ def run_shard(spec):
             pat = rng.choice(PATTERNS)
         data = classes[cls](rng)
         run_case(rec, ptype, cls, data, pat)
-        if rec.evaluations % 997 == 0:
+        if rec.evaluations % 997 == 1:
             rec.sample({'type': ptype, 'class': cls,
                         'data': gen.jsonable(data) if len(repr(data)) < 200
                         else '<%d chars>' % len(repr(data)),
